@@ -146,6 +146,9 @@ def r2_associativity(ctx: Ctx) -> None:
     tail = sy.node.body[-2] if len(sy.node.body) >= 2 else None
     ok = isinstance(tail, ast.While) and unparse(tail.test) in ("len(operator_stack) > 0", "operator_stack") and \
         any(unparse(c) == "output_queue.append(operator_stack.pop())" for c in calls_in(tail))
+    # the same drain in one call: the stack from its top downwards
+    ok = ok or (tail is not None and unparse(tail) in ("output_queue.extend(reversed(operator_stack))", "output_queue.extend(operator_stack[::-1])", "output_queue += reversed(operator_stack)",
+                                                       "output_queue += operator_stack[::-1]"))
     ctx.check(bool(ok), "shunting_yard:drain", "remaining operators are appended last-in first-out")
     rets = returns_of(sy.node)
     ctx.check(len(rets) == 1 and unparse(rets[0].value) == "output_queue", "shunting_yard:returns", "returns the postfix queue")
@@ -155,6 +158,18 @@ def r2_associativity(ctx: Ctx) -> None:
         raise AnalysisError("shunting_yard: closing-parenthesis arm not found")
     body = rp[0].body
     unwind = [s_ for s_ in body if isinstance(s_, ast.While)]
+    if not unwind:
+        # the unwinding written as one slice move: the operators above the parenthesis must reach the output top first
+        ext = [c for b_ in body for c in calls_in(b_) if unparse(c.func) == "output_queue.extend" and c.args]
+        if len(ext) == 1:
+            a_ = unparse(ext[0].args[0])
+            top_first = a_ in ("reversed(operator_stack[lparen_index + 1:])", "operator_stack[:lparen_index:-1]", "operator_stack[lparen_index + 1:][::-1]")
+            bottom_first = a_ == "operator_stack[lparen_index + 1:]"
+            if top_first or bottom_first:
+                ctx.check(top_first, "shunting_yard:paren-unwind", f"operators above the open parenthesis move to the output last-pushed first; `{a_}` moves them in push order "
+                          "(`(1 + 2 * 3)` then evaluates + before *)", fact=True)
+                ctx.note("shunting_yard: closing parenthesis unwound by a slice move; the remaining facts of that arm are not read")
+                return
     if len(unwind) != 1:
         raise AnalysisError("shunting_yard: the closing-parenthesis arm does not unwind with one loop")
     moved = [c for c in calls_in(unwind[0]) if unparse(c.func) == "output_queue.append"]
@@ -206,7 +221,11 @@ def r2_associativity(ctx: Ctx) -> None:
                     is_elif_link = child in a.orelse and len(a.orelse) == 1 and isinstance(a.orelse[0], ast.If)
                     if not is_elif_link and child is not a.test:
                         depth_ifs += 1
-            stmt_is_append = isinstance(parents.get(id(c)), ast.Call) and (call_name(parents[id(c)]) or "").endswith(".append")
+            par_c = parents.get(id(c))
+            stmt_is_append = isinstance(par_c, ast.Call) and (call_name(par_c) or "").endswith(".append")
+            # or the node is an element of a list display that becomes (part of) the token list: `tokens = [Term(tok)]`
+            if isinstance(par_c, ast.List) and isinstance(parents.get(id(par_c)), (ast.Assign, ast.AnnAssign, ast.AugAssign, ast.Return)):
+                stmt_is_append = True
             ctx.count("expr_node_constructions")
             ctx.check(depth_ifs <= (2 if kind == "BinOp" else 1) and stmt_is_append, f"_parse_expression:{kind} node", f"each {kind} token is appended once, unconditionally within its arm (nesting depth {depth_ifs})")
     for c in calls_in(pe.node, "UnaryOp"):
@@ -264,6 +283,8 @@ def _assoc_break_form(ctx: Ctx, sy, brk_if: ast.If) -> None:
     ctx.check(len(pops) == 1, "shunting_yard:push", "popped operators go to the output queue")
     tail = sy.node.body[-2] if len(sy.node.body) >= 2 else None
     ok = isinstance(tail, ast.While) and unparse(tail.test) in ("len(operator_stack) > 0", "operator_stack") and any(unparse(c) == "output_queue.append(operator_stack.pop())" for c in calls_in(tail))
+    ok = ok or (tail is not None and unparse(tail) in ("output_queue.extend(reversed(operator_stack))", "output_queue.extend(operator_stack[::-1])", "output_queue += reversed(operator_stack)",
+                                                       "output_queue += operator_stack[::-1]"))
     ctx.check(bool(ok), "shunting_yard:drain", "remaining operators are appended last-in first-out")
     ctx.count("assoc_facts", 6)
 
@@ -448,7 +469,30 @@ def r4_literal_bases(ctx: Ctx) -> None:
             return const_int(e.args[1])
         return None
 
-    if len(top_ifs) == 1 and top_ifs[0].orelse:
+    table_form = None
+    if not top_ifs:
+        # int(text, {"0x": 16, "0b": 2}.get(text[:2], 10)) - the base looked up by the two-character prefix
+        for r_ in returns_of(en.node):
+            v_ = r_.value
+            if isinstance(v_, ast.Call) and call_name(v_) == "int" and len(v_.args) == 2 and _cn2(en.node, v_.args[0]) == p:
+                b_ = v_.args[1]
+                from ..match import inline as _inl4, single_assignments as _sa4
+
+                b_ = _inl4(b_, _sa4(en.node))
+                if isinstance(b_, ast.Call) and isinstance(b_.func, ast.Attribute) and b_.func.attr == "get" and isinstance(b_.func.value, ast.Dict) and len(b_.args) == 2 \
+                        and _cn2(en.node, b_.args[0]) == f"{p}[:2]":
+                    table_form = ({const_str(k): const_int(v) for k, v in zip(b_.func.value.keys, b_.func.value.values)}, const_int(b_.args[1]))
+    if table_form is not None:
+        got, default = dict(table_form[0]), table_form[1]  # type: ignore[arg-type]
+        ctx.check(got.get("0x") == 16, "eval_number[0x]", f"0x literals are base 16; found {got.get('0x')}")
+        ctx.check(got.get("0b") == 2, "eval_number[0b]", f"0b literals are base 2; found {got.get('0b')}")
+        ctx.check(default == 10, "eval_number[default]", f"unprefixed literals are decimal; found {default}")
+        for pre, base in got.items():
+            if pre not in ("0x", "0b"):
+                ctx.check(pre == "0o" and base == 8, f"eval_number[{pre}]", f"prefix {pre!r} read in base {base}")
+        ctx.ok("eval_number:conversion", "int(text, base) with the base taken from the prefix table")
+        arms, orelse, guard_style, top_ifs = [], [], None, []
+    elif len(top_ifs) == 1 and top_ifs[0].orelse:
         arms, orelse = if_chain(top_ifs[0])
         guard_style = False
     else:
@@ -466,7 +510,9 @@ def r4_literal_bases(ctx: Ctx) -> None:
         else:
             raise AnalysisError(f"eval_number: arm `{unparse(test)}` not modelled")
     rets = returns_of(en.node)
-    if guard_style:
+    if table_form is not None:
+        pass
+    elif guard_style:
         last = en.node.body[-1]
         tail = orelse[-1] if orelse else last
         if not isinstance(tail, ast.Return):
@@ -481,7 +527,9 @@ def r4_literal_bases(ctx: Ctx) -> None:
     for pre, base in got.items():
         if pre not in ("0x", "0b"):
             ctx.check(pre == "0o" and base == 8, f"eval_number[{pre}]", f"prefix {pre!r} read in base {base}")
-    if guard_style:
+    if table_form is not None:
+        pass
+    elif guard_style:
         ctx.ok("eval_number:conversion", "every arm converts with int(text, base)")
     else:
         ctx.check(len(rets) == 1 and unparse(rets[0].value) == f"int({p}, base)", "eval_number:conversion", "int(text, base): letters under base 10 raise, so a prefixed literal without an arm is never read silently as decimal")
